@@ -407,8 +407,13 @@ func c19Verdicts(a *ChildArgs, r *rand.Rand, avoid map[string]bool, dir string) 
 	}
 	check("validate-strict", append([]string{"validate", "--strict"}, names...), &strictAll, judged)
 	// machine-readable reports
-	for _, fm := range []string{"json", "sarif"} {
-		run := check("validate-"+fm, append([]string{"validate", "--output-format", fm}, names...), &allOK, judged)
+	for _, fm := range []string{"json", "sarif", "json+stats", "sarif+stats"} {
+		fargs := []string{"validate", "--output-format", strings.TrimSuffix(fm, "+stats")}
+		if strings.HasSuffix(fm, "+stats") {
+			fargs = append(fargs, "--stats") // the report stays one well-formed document whatever else is asked for
+			fm = strings.TrimSuffix(fm, "+stats")
+		}
+		run := check("validate-"+fm, append(fargs, names...), &allOK, judged)
 		if run.timedOut || run.rc > 1 {
 			continue
 		}
@@ -608,10 +613,15 @@ func c19Consistency(a *ChildArgs, r *rand.Rand, avoid map[string]bool, dir strin
 	wit := map[string]interface{}{"file": f.content, "options": opts, "library_accepts": f.accepted}
 	p := c19Exec(dir, nil, append(append([]string{"format"}, opts...), f.name)...)
 	chk := c19Exec(dir, nil, append(append([]string{"format", "--check"}, opts...), f.name)...)
+	// --check together with -i is still a check
+	chkI := c19Exec(dir, nil, append(append([]string{"format", "--check", "-i"}, opts...), f.name)...)
 	mid := c19Snapshot(dir, files)
 	if mid[f.name].content != f.content {
-		a.Rec.Viol("C19/consistency/check-modified-file", "check-only modes never modify any file", "format / format --check changed the file", wit)
+		a.Rec.Viol("C19/consistency/check-modified-file", "check-only modes never modify any file", "format / format --check / format --check -i changed the file", wit)
 		return
+	}
+	if !chkI.timedOut && !chk.timedOut && (chkI.rc == 0) != (chk.rc == 0) {
+		a.Rec.Viol(fmt.Sprintf("C19/consistency/check-with-inplace/rc-%d-vs-%d", chkI.rc, chk.rc), "the verdict of format --check is consistent", fmt.Sprintf("format --check exits %d, format --check -i exits %d", chk.rc, chkI.rc), wit)
 	}
 	// -o: the named file receives what is otherwise printed, the input stays as it is
 	os.Remove(filepath.Join(dir, "out.sql"))
